@@ -10,6 +10,7 @@ import (
 	"fmt"
 	"sort"
 	"strings"
+	"unicode/utf8"
 )
 
 // Schema is a parsed Avro schema. Kind is one of null, boolean, int, long,
@@ -130,6 +131,12 @@ func (s Schema) Diff(o Schema, path string) string {
 // (a string that is not a primitive name) are reported as Kind "ref:<name>"
 // errors: the library does not support them and the generators never emit them.
 func ParseSchema(data []byte) (Schema, error) {
+	if !utf8.Valid(data) {
+		return Schema{}, fmt.Errorf("schema document is not valid UTF-8")
+	}
+	if err := noDuplicateKeys(data); err != nil {
+		return Schema{}, err
+	}
 	dec := json.NewDecoder(bytes.NewReader(data))
 	dec.UseNumber()
 	var v interface{}
@@ -145,6 +152,61 @@ func ParseSchema(data []byte) (Schema, error) {
 		return Schema{}, fmt.Errorf("trailing data after schema")
 	}
 	return fromJSON(v)
+}
+
+// noDuplicateKeys walks the token stream: encoding/json silently keeps the
+// last of two equal keys, which no conformant writer produces.
+func noDuplicateKeys(data []byte) error {
+	dec := json.NewDecoder(bytes.NewReader(data))
+	type frame struct {
+		object bool
+		keys   map[string]bool
+		isKey  bool
+	}
+	var stack []*frame
+	for {
+		tok, err := dec.Token()
+		if err != nil {
+			return nil // syntax errors are reported by the real parse
+		}
+		top := func() *frame {
+			if len(stack) == 0 {
+				return nil
+			}
+			return stack[len(stack)-1]
+		}
+		switch t := tok.(type) {
+		case json.Delim:
+			switch t {
+			case '{':
+				if f := top(); f != nil && f.object {
+					f.isKey = true
+				}
+				stack = append(stack, &frame{object: true, keys: map[string]bool{}, isKey: true})
+			case '[':
+				if f := top(); f != nil && f.object {
+					f.isKey = true
+				}
+				stack = append(stack, &frame{})
+			case '}', ']':
+				stack = stack[:len(stack)-1]
+			}
+		default:
+			f := top()
+			if f != nil && f.object {
+				if f.isKey {
+					k, _ := tok.(string)
+					if f.keys[k] {
+						return fmt.Errorf("duplicate object key %q", k)
+					}
+					f.keys[k] = true
+					f.isKey = false
+				} else {
+					f.isKey = true
+				}
+			}
+		}
+	}
 }
 
 func ioReadAll(r interface{ Read([]byte) (int, error) }) ([]byte, error) {
@@ -185,14 +247,14 @@ func fromJSON(v interface{}) (Schema, error) {
 			return Schema{}, fmt.Errorf("unknown type %q", ty)
 		}
 		s := Schema{Kind: ty, ObjectForm: true}
-		if n, ok := t["name"].(string); ok {
-			s.Name = n
-		}
-		if n, ok := t["namespace"].(string); ok {
-			s.Namespace = n
-		}
-		if n, ok := t["logicalType"].(string); ok {
-			s.LogicalType = n
+		for key, dst := range map[string]*string{"name": &s.Name, "namespace": &s.Namespace, "logicalType": &s.LogicalType} {
+			if v, present := t[key]; present {
+				str, ok := v.(string)
+				if !ok {
+					return Schema{}, fmt.Errorf("attribute %q is not a string", key)
+				}
+				*dst = str
+			}
 		}
 		switch ty {
 		case "record":
